@@ -149,6 +149,42 @@ def warm():
     print("setup: yardl + harness built in %.1fs" % (time.time() - t))
 
 
+class Pool:
+    """multiprocessing.Pool without Pool.terminate(): terminate() drains the task queue under the queue's reader lock, and when
+    a worker was killed while holding that lock (SIGTERM arrives during get()) the parent waits for the lock forever. On a normal
+    exit the pool is closed and joined (workers finish and leave by themselves); on an exception the workers are killed and the
+    pool's finalizer is cancelled. Harness children of the workers die with them (PR_SET_PDEATHSIG)."""
+
+    def __init__(self, *a, **kw):
+        import multiprocessing
+        self.pool = multiprocessing.Pool(*a, **kw)
+
+    def __enter__(self):
+        return self.pool
+
+    def abandon(self):
+        for p in list(getattr(self.pool, "_pool", [])):
+            try:
+                p.kill()
+            except Exception:  # noqa
+                pass
+        try:
+            self.pool._terminate.cancel()
+        except Exception:  # noqa
+            pass
+
+    def __exit__(self, et, ev, tb):
+        if et is None:
+            try:
+                self.pool.close()
+                self.pool.join()
+                return False
+            except Exception:  # noqa
+                pass
+        self.abandon()
+        return False
+
+
 def _die_with_parent():
     """PR_SET_PDEATHSIG: a harness process that hangs (busy loop in the code under test) must not outlive a killed worker."""
     try:
